@@ -157,53 +157,82 @@ theorem name_invariant_established_and_kept :
 
 /-! ## the forward gate -/
 
-/-- **forward_gate.** A function whose forward requirements (its own forward declaration, or — transitively —
-those its body picked up, see `forward_gate_transitive`) include a declaration of the current scope that is not
-fulfilled yet cannot be used: neither as the callee of a compiled call (`prepare_return`) nor as a value
-(`Ident`); both go through `useCand`. -/
-theorem forward_gate (ps : List Scope) (cur : Scope) (c : Cand) (r : FwdReq) (f : FwdRef)
-    (hr : r ∈ c.2.2) (hf : forwardRef (cur :: ps) r = .ok f) (hunf : f.fulfilled = false)
-    (hh : r.height = cur.height) : ∀ out, useCand ps cur c ≠ .ok out :=
-  useCand_blocked ps cur c r f hr hf hunf hh
+/-- **forward_gate.** `unfulfilledBehind chain r` mirrors `unfulfilled_behind`: the forward functions that are not
+implemented yet behind the requirement `r` — `r` itself or, when `r` is implemented, (transitively) every one that
+its implementation needs; the requirements of an implementation are read from the cell of the forward function in the
+scope that OWNS it (`owner.cells`).  A function behind one of whose requirements stands such a function declared in the
+current scope cannot be used: neither as the callee of a compiled call (`prepare_return`) nor as a value (`Ident`);
+both go through `useCand`. -/
+theorem forward_gate (ps : List Scope) (cur : Scope) (c : Cand) (r m : FwdReq) (ms : List FwdReq)
+    (hr : r ∈ c.2.2) (hms : unfulfilledBehind (cur :: ps) r = .ok ms) (hm : m ∈ ms)
+    (hh : m.height = cur.height) : ∀ out, useCand ps cur c ≠ .ok out :=
+  useCand_blocked ps cur c r m ms hr hms hm hh
 
-/-- transitivity: used from a deeper scope, the unfulfilled requirement is recorded in that scope's own
-requirements; they become the requirements of the function that scope is compiled into (`into_static_ud`), and
-the requirements of its cell in the parent (`add_static_func`, also when it fulfils a forward declaration) -/
-theorem forward_gate_transitive (ps : List Scope) (cur cur' : Scope) (c : Cand) (e : XE) (r : FwdReq) (f : FwdRef)
-    (h : useCand ps cur c = .ok (e, cur')) (hr : r ∈ c.2.2) (hf : forwardRef (cur :: ps) r = .ok f)
-    (hunf : f.fulfilled = false) :
-    r ∈ cur'.fwdReqs ∧
+/-- used from a deeper scope, EVERY unfulfilled function behind the requirement is recorded in that scope's own
+requirements (not only the first one met: when that one gets implemented the others must not be forgotten); they
+become the requirements of the function that scope is compiled into (`into_static_ud`), and the requirements of its
+cell in the parent (`add_static_func`, also when it fulfils a forward declaration) -/
+theorem forward_gate_transitive (ps : List Scope) (cur cur' : Scope) (c : Cand) (e : XE) (r m : FwdReq)
+    (ms : List FwdReq) (h : useCand ps cur c = .ok (e, cur')) (hr : r ∈ c.2.2)
+    (hms : unfulfilledBehind (cur :: ps) r = .ok ms) (hm : m ∈ ms) :
+    m ∈ cur'.fwdReqs ∧
     (∀ dflts n out pl, (intoStaticUd cur' dflts n out pl).1.freqs = cur'.fwdReqs) :=
-  ⟨useCand_inherits ps cur cur' c e r f h hr hf hunf, fun _ _ _ _ => rfl⟩
+  ⟨useCand_inherits ps cur cur' c e r m ms h hr hms hm, fun _ _ _ _ => rfl⟩
+
+/-- **the gate sees through implementations, completely** (what fix 78a2146 started, the C03 fixes completed and the
+seeded `self.cells` slip breaks): EVERY forward function reachable from `r` — `r`, the requirements recorded on the cell
+of its implementation in the owning scope, theirs, … (`Reach`) — is either implemented or reported by
+`unfulfilled_behind`; and what it reports is unimplemented.  In particular an empty answer means that everything the
+use can reach is implemented. -/
+theorem forward_gate_closure (chain : List Scope) (r : FwdReq) (ms : List FwdReq)
+    (h : unfulfilledBehind chain r = .ok ms) :
+    (∀ r', Reach chain r r' → (∃ more, behindStep chain r' = .ok (true, more)) ∨ r' ∈ ms) ∧
+    (∀ m ∈ ms, ∃ more, behindStep chain m = .ok (false, more)) :=
+  unfulfilledBehind_complete chain r ms h
 
 /-- the gate on closed programs (the model runs): a forward function taken as a value, called, or used by a
 lambda before its definition is `MissingForwardImplementation`; after the definition it is allowed -/
-example : errOf (compileProgram 50 [.fwdD "g", .letD "h" (.ident "g")]) = some (.missingForward "g") := by decide
-example : errOf (compileProgram 50 [.fwdD "g", .letD "r" (.call (.ident "g") [.lit (.int 0)])]) = some (.missingForward "g") := by decide
+example : errOf (compileProgram 50 [.fwdD "g", .letD "h" (.ident "g")]) = some (.missingForward "g") := by decide +kernel
+example : errOf (compileProgram 50 [.fwdD "g", .letD "r" (.call (.ident "g") [.lit (.int 0)])]) = some (.missingForward "g") := by decide +kernel
 example : errOf (compileProgram 50 [.fwdD "g", .letD "k" (.lam (.mk [.mk "x" none] [] (.call (.ident "g") [.ident "x"])))])
-    = some (.missingForward "g") := by decide
+    = some (.missingForward "g") := by decide +kernel
 example : errOf (compileProgram 50 [.fwdD "a", .fwdD "b", .fnD "a" (.mk [.mk "x" none] [] (.call (.ident "b") [.ident "x"])),
-    .letD "r" (.call (.ident "a") [.lit (.int 0)])]) = some (.missingForward "b") := by decide
-example : errOf (compileProgram 50 [.fwdD "g", .fnD "g" (.mk [.mk "x" none] [] (.ident "x")), .letD "h" (.ident "g")]) = none := by decide
+    .letD "r" (.call (.ident "a") [.lit (.int 0)])]) = some (.missingForward "b") := by decide +kernel
+example : errOf (compileProgram 50 [.fwdD "g", .fnD "g" (.mk [.mk "x" none] [] (.ident "x")), .letD "h" (.ident "g")]) = none := by decide +kernel
+
+/-- the transitive gate seen from a NESTED scope: `g` was defined while `f` was pending; `f` is implemented on top of
+the still unimplemented `h`; `via` uses `g` from its body, and calling `via` early is rejected (naming `h`) -/
+example : errOf (compileProgram 60
+    [.fwdD "f", .fnD "g" (.mk [] [] (.call (.ident "f") [])), .fwdD "h",
+     .fnD "f" (.mk [] [] (.call (.ident "h") [])), .fnD "via" (.mk [] [] (.call (.ident "g") [])),
+     .letD "early" (.call (.ident "via") [])]) = some (.missingForward "h") := by decide +kernel
+
+/-- all of them are remembered: `via` uses `t`, `t` uses `a`, `a` is implemented on top of the unimplemented `b` and `c`;
+after `c` is implemented, calling `via` is still rejected (naming `b`) -/
+example : errOf (compileProgram 60
+    [.fwdD "a", .fwdD "b", .fwdD "c", .fnD "t" (.mk [] [] (.call (.ident "a") [])),
+     .fnD "a" (.mk [] [] (.tup [.call (.ident "b") [], .call (.ident "c") []])),
+     .fnD "via" (.mk [] [] (.call (.ident "t") [])), .fnD "c" (.mk [] [] (.lit (.int 1))),
+     .letD "u" (.call (.ident "via") [])]) = some (.missingForward "b") := by decide +kernel
 
 /-- a lambda is gated where it is written -/
 theorem forward_gate_lambda (fuel : Nat) (ps : List Scope) (cur : Scope) (lf : CFunc) (out : XE × Scope)
     (h : compileExpr (fuel + 1) ps cur (.lamF lf) = .ok out) :
-    ∀ r ∈ lf.freqs, ∀ f, forwardRef (cur :: ps) r = .ok f → f.fulfilled = false →
-      r.height ≠ cur.height ∧ r ∈ out.2.fwdReqs := by
+    ∀ r ∈ lf.freqs, ∀ ms, unfulfilledBehind (cur :: ps) r = .ok ms → ∀ m ∈ ms,
+      m.height ≠ cur.height ∧ m ∈ out.2.fwdReqs := by
   simp only [compileExpr] at h
   split at h
   · cases h
   · rename_i cur1 hreq
     cases h
-    intro r hr f hf hunf
-    have := requireForwards_gate ps cur cur1 _ hreq r hr f hf hunf
+    intro r hr ms hms m hm
+    have := requireForwards_gate ps cur cur1 _ hreq r hr ms hms m hm
     exact ⟨this.1, by simpa [addAnonymousFunc] using this.2⟩
 
-/-- the host-side gate (`get_user_defined_function`): a function is handed to the host only if every forward
-declaration among its requirements is fulfilled -/
+/-- the host-side gate (`get_user_defined_function`): a function is handed to the host only if nothing unimplemented
+stands behind any of its requirements (transitively, as at compile time) -/
 theorem forward_gate_host (root : Scope) (x : String) (k : Nat) (h : hostGet root x = .ok k) :
-    ∀ r ∈ root.cellReqs k, ∀ f, forwardRef [root] r = .ok f → f.fulfilled = true :=
+    ∀ r ∈ root.cellReqs k, unfulfilledBehind [root] r = .ok [] :=
   hostGet_ok root x k h
 
 /-! ## run-time resolution of a pending (forward) capture — known finding, `_partial` + witness -/
